@@ -375,15 +375,37 @@ class World:
         labels = {"atom": list(dict.fromkeys(o.labels["atom"] + ol["atom"]))}
         for k in M.KINDS:
             labels[k] = list(dict.fromkeys(o.labels[k] + ol[k]))
-        # the real inserted atoms carry the pattern's charges (not unique across sites): identify by position, re-tag
+        # the real inserted atoms carry the pattern's charges (not unique across sites): identify every result atom -
+        # survivors by their charge tag, inserted atoms by (pattern charge, position) - without assuming any order of the
+        # result's atoms (the statement of the replacement properties does not fix one), then re-tag the inserted ones
         res_pos = np.asarray(new.positions, float)
         if len(res_pos) != len(out["atoms"]):
             raise Violation("atom-count", "replace %s sites: %d atoms, expected %d" % (el, len(res_pos), len(out["atoms"])))
+        from mv import geom
+        survivors = {a["tag"]: k for k, a in enumerate(out["atoms"]) if "charge_pattern" not in a}
+        pending = [k for k, a in enumerate(out["atoms"]) if "charge_pattern" in a]
+        order = []
+        for i in range(len(res_pos)):
+            c = round(float(new.charges[i]), 9)
+            if c in survivors:
+                order.append(survivors.pop(c))
+                continue
+            hit = None
+            for k in pending:
+                a = out["atoms"][k]
+                if abs(a["charge_pattern"] - c) < 1e-12 and geom.lattice_diff(cell, res_pos[i], a["pos"]) <= 1e-6:
+                    hit = k
+                    break
+            if hit is None:
+                raise Violation("inserted-atom", "result atom %d (charge %r at %r) is neither a surviving atom nor a replacement-"
+                                "pattern atom at the place its site predicts" % (i, c, res_pos[i].tolist()))
+            pending.remove(hit)
+            order.append(hit)
+        out["atoms"] = [out["atoms"][k] for k in order]
         for i, a in enumerate(out["atoms"]):
             if "charge_pattern" in a:
-                cp = a.pop("charge_pattern")
-                if abs(float(new.charges[i]) - cp) > 1e-12:
-                    raise Violation("inserted-charge", "inserted atom %d has charge %r, the pattern says %r" % (i, float(new.charges[i]), cp))
+                a.pop("charge_pattern")
+                a["pos"] = res_pos[i].tolist()
                 new.charges[i] = a["tag"]
                 a["charge"] = a["tag"]
         n = Obj(new, out, labels)
